@@ -122,7 +122,7 @@ def check_case(ck, rx, frames, sent, mres_passive, mres_active, tx, psize, pval,
         rep = {"rx": rx, "tx": tx, "padding": [psize, pval], "active": active,
                "frames": [[fid, bytes(d).hex()] for fid, d in frames], "label": label}
         if err:
-            ck.violation(f"decode_rx_frame raised on frame {err[0]}: {err[1]}", rep)
+            ck.violation(f"processing frame {err[0]}: {err[1]}", rep)
             return False
         # direct oracle: per id exactly the transmitted telegrams, in order, once
         got = {}
@@ -183,6 +183,16 @@ def main(argv=None):
                     frames = [(0x7E8, f) for f in ic.segment(fsz, t, pad)]
                     cases.append(([0x7E8], frames, {0x7E8: [t]}, [0x7E0], rng.choice([0, 8]), 0xAA,
                                   f"single fsz={fsz} n={n} pad={mode}"))
+        # 1b. a transfer of 254..258 consecutive frames (the block size of the active decoder's flow control is 255)
+        # directly followed by another segmented transfer on the same id
+        for fsz in (8, 12):
+            for k in (254, 255, 256, 257, 258):
+                n1 = (fsz - 2) + (fsz - 1) * k - rng.choice([0, 1, fsz - 2])
+                if n1 > 4095:
+                    continue
+                t1, t2 = rand_telegram(rng, n1), rand_telegram(rng, rng.choice([fsz, 20, 100]))
+                frames = [(0x7E8, f) for t in (t1, t2) for f in ic.segment(fsz, t)]
+                cases.append(([0x7E8], frames, {0x7E8: [t1, t2]}, [0x7E0], 8, 0xAA, f"block-boundary fsz={fsz} cfs={k}"))
         # 2. exhaustive interleavings of two short transfers (<= 7 frames)
         ta = rand_telegram(rng, 20)  # FF + 2 CF
         tb = rand_telegram(rng, 27)  # FF + 3 CF
